@@ -202,7 +202,9 @@ def run_tier_b_property(prop, tier, quick_s, thorough_s, drivers, collectors, co
                 with lock:
                     done[i] = (run, res)
                     v = tb.classify(run, res)
-                    if v is not None:
+                    if v is not None and v[0] != "timeout":
+                        # (a wall-clock timeout is only believed after it has been repeated
+                        # with a larger limit, see handle_violations - it does not stop the search)
                         key = key_fn(run, v, res) if key_fn else "%s:%s" % (run["exe"][0], v[0])
                         if match_known(prop, key) is None:
                             state["stop"] = True
@@ -563,7 +565,7 @@ def ex_run(seed, prop, i, fault_free, collectors=("zero", "copy", "sweep", "swip
     sim.update(faults)
     alts = mx.expected(script, heap_mb << 20, gc)
     return {"index": i, "exe": ["exhaust", gc, cg, "sim"], "argv": script, "dora_flags": " ".join(flags), "sim": sim,
-            "expect": {"alternatives": alts}, "timeout": 120, "fault_free": fault_free,
+            "expect": {"alternatives": alts}, "timeout": 300, "fault_free": fault_free,
             "tags": {"gc": gc, "codegen": cg, "mode": script[0], "where": script[1], "bystanders": script[2], "heap_mb": heap_mb,
                      "policy": sim["policy"].split(":")[0], "fault_free": fault_free}}
 
